@@ -406,7 +406,7 @@ class Old:
 class Contract:
     FIELDS = ('params', 'closure', 'requires', 'ensures', 'ghost', 'raises', 'modifies', 'loops',
               'assumes', 'props', 'inline', 'native', 'result', 'tier', 'unroll', 'globals',
-              'scope', 'note', 'kind', 'decreases', 'lemmas', 'timeout', 'modular', 'must_raise', 'raises_iff', 'externals', 'callees', 'method_results', 'use', 'opaque_ctors', 'hints')
+              'scope', 'note', 'kind', 'decreases', 'lemmas', 'timeout', 'modular', 'must_raise', 'raises_iff', 'externals', 'callees', 'method_results', 'use', 'opaque_ctors', 'hints', 'pure_ctors')
 
     def __init__(self, target, cls, variant=None):
         self.target = target
@@ -442,6 +442,7 @@ class Contract:
         self.use = None
         self.opaque_ctors = {}
         self.hints = []
+        self.pure_ctors = []
         for k, v in vars(cls).items():
             if k.startswith('_'):
                 continue
